@@ -6,6 +6,7 @@ import Complgen.Model.Pipeline
 import Complgen.Proofs.NoCrash
 import Complgen.Proofs.PipelineMin
 import Complgen.Proofs.BuildTerm
+import Complgen.Proofs.SpacesDepth
 namespace Complgen.Props.C06
 open Complgen Complgen.Check
 
@@ -53,5 +54,28 @@ theorem pipeline_crash_only_stack (σ : Schedule) (g : Grammar) (sh : Shell) (s 
     (h : Pipeline.compile σ g sh = .crash s) :
     s = "check_subword_spaces: unbounded recursion through cyclic definitions" :=
   Pipeline.compile_crash_only_stack σ g sh s h
+
+/-- **Below the modelled stack the pipeline model never crashes** (`Proofs/SpacesDepth.lean`): the walk of
+`check_subword_spaces` over the expanded definitions needs at most `spacesDepth` of the top expression
+plus the deepest expanded definition; in particular every grammar whose statements have fewer than
+10 000 nodes in total goes through the whole pipeline model without any crash outcome, for every
+shell and schedule.  (The expanded table is closed — no body refers to a defined name any more —
+which is what makes the recursion through definitions one level deep.) -/
+theorem no_crash_below_stack (g : Grammar) (sh : Shell) (h : (g.map stmtSize).sum ≤ 9999) :
+    ∀ σ site, Pipeline.compile σ g sh ≠ .crash site :=
+  Pipeline.compile_no_crash_of_size g sh h
+
+/-- the sharper bound in the units of the walk itself -/
+theorem no_crash_below_depth (g : Grammar) (sh : Shell)
+    (h : spacesDepth (topSpecialised g sh) + tableDepth (expandedTable g sh) ≤ stackFuel) :
+    ∀ σ site, Pipeline.compile σ g sh ≠ .crash site :=
+  Pipeline.compile_no_crash_of_depth g sh h
+
+/-- the bound is about something: with too little budget the walk does report exhaustion, and on a
+table that is not closed (`<X> ::= <X>`) it does so for every budget -/
+theorem stack_bound_not_vacuous :
+    (spaces [] 7 flat6 [] false = .overflow ∧ spaces [] 8 flat6 [] false = .fine) ∧
+    (∀ fuel tr w, spaces tableLoop fuel (.nonterm "X" 0 default) tr w = .overflow) :=
+  ⟨⟨flat6_overflow.2.2.1, flat6_overflow.2.2.2⟩, loop_overflow⟩
 
 end Complgen.Props.C06
